@@ -1,10 +1,14 @@
 /- Driver commands for C04.
 Model level: `OWNERS` replays `BuildTree64` on the outrec table the real sweep produced (Model/Owner.lean), with the real
 `CleanCollinear`+`BuildPath64` results and the real `Path1InsidePath2` answers as values of the abstract parameters.
+`OWNERSLVL` answers the model's `Level()` / `IsHole()` of every placed outrec for the same tables.
+`OWNERSHYP` evaluates the decidable versions (Model/OwnerHyp.lean) of the hypotheses of `tree_paths_perm` and
+`checkOwners_terminates` on the same tables (rank certificates are computed here, untrusted, and checked by the model's checkers).
 Spec level: `TREECHECK` / `TREECHECKD` judge the real PolyTree against the text of property C04 with exact arithmetic. -/
 import ClipperVerif.Driver.Proto
 import ClipperVerif.Driver.C03
 import ClipperVerif.Model.Owner
+import ClipperVerif.Model.OwnerHyp
 namespace Clipper.Driver.C04
 open Clipper Clipper.Proto Clipper.Model.Owner
 open Clipper.Driver.C03 (canonPaths pathLt pathLe nestedIn dbl fmtPt pow2)
@@ -190,18 +194,30 @@ def ownerOfAddr (T : Table) (a : List Nat) : Int :=
     | some j => j
     | none => -3
 
-def cmdOwners : P String := do
+structure OwnersIn where
+  n : Nat
+  T : Table
+  clean : Nat → CleanRes
+  openPath : Nat → Option Path
+  inside : Nat → Nat → Bool
+
+def ownersIn : P OwnersIn := do
   let n ← nat
   let recs ← rep n recIn
   let insideTok ← tok       -- n*n characters '0'/'1', row = child
   done
   let ra := recs.toArray
   let bits := insideTok.toList.toArray
-  let clean : Nat → CleanRes := fun i => match ra[i]? with | some r => r.clean | none => .invalid
-  let openPath : Nat → Option Path := fun i => match ra[i]? with | some r => r.openPath | none => none
-  let inside : Nat → Nat → Bool := fun i j => bits[i * n + j]? == some '1'
-  let T : Table := (recs.map (·.orec)).toArray
-  match buildTree clean inside openPath (4 * n * n + 64) T with
+  pure { n := n,
+         T := (recs.map (·.orec)).toArray,
+         clean := fun i => match ra[i]? with | some r => r.clean | none => .invalid,
+         openPath := fun i => match ra[i]? with | some r => r.openPath | none => none,
+         inside := fun i j => bits[i * n + j]? == some '1' }
+
+def cmdOwners : P String := do
+  let inp ← ownersIn
+  let n := inp.n
+  match buildTree inp.clean inp.inside inp.openPath (4 * n * n + 64) inp.T with
   | none => pure "OUT-OF-FUEL-OR-FAULT"
   | some S =>
     let per := (List.range n).map (fun i =>
@@ -215,10 +231,54 @@ def cmdOwners : P String := do
         s!"{own}:{par}:{if r.hasPts then 1 else 0}")
     pure (String.intercalate " " per ++ " | " ++ showPaths (polyTreeToPaths S.tree) ++ " | " ++ showPaths S.openPaths)
 
+/-- the model's `PolyPath::Level()` and `PolyPath::IsHole()` of the node of every placed outrec -/
+def cmdOwnersLvl : P String := do
+  let inp ← ownersIn
+  let n := inp.n
+  match buildTree inp.clean inp.inside inp.openPath (4 * n * n + 64) inp.T with
+  | none => pure "OUT-OF-FUEL-OR-FAULT"
+  | some S =>
+    let per := (List.range n).map (fun i =>
+      match S.recs[i]? with
+      | none => "?"
+      | some r =>
+        match r.polypath with
+        | none => "-"
+        | some a => s!"{level a}:{if isHole a then 1 else 0}")
+    pure (String.intercalate " " per)
+
+/-- decidable hypotheses of the C04 theorems on a real table -/
+def cmdOwnersHyp : P String := do
+  let mode ← tok
+  let inp ← ownersIn
+  let T := inp.T
+  let n := T.size
+  match mode with
+  | "all" =>
+    let bad : List String :=
+      (if freshB T then [] else ["fresh"]) ++
+      (if ownersInRangeB T then [] else ["ownersInRange"]) ++
+      (if splitsInRangeB T then [] else ["splitsInRange"]) ++
+      (if ownerRankB T (heights n (ownerSucc T)) then [] else ["acyclic"]) ++
+      (if closedWorldB T then [] else ["closedWorld"]) ++
+      (if h1B inp.clean T then [] else ["h1"]) ++
+      (if splitsRankB inp.clean T (heights n (splitsSuccPL inp.clean T)) then [] else ["splitsWF"])
+    pure (if bad.isEmpty then "ok" else "FAIL " ++ String.intercalate " " bad)
+  | "splitsacyclic" =>
+    pure (if splitsAllRankB T (heights n (splitsSuccAll T)) then "ok" else "FAIL splitsAcyclic")
+  | "wfcycle" =>
+    if splitsRankB inp.clean T (heights n (splitsSuccPL inp.clean T)) then pure "ok"
+    else match findCycle n (splitsSuccPL inp.clean T) with
+      | some c => pure (if splitsCycleB inp.clean T c then "FAIL splitsWF" else "UNDECIDED bad cycle certificate")
+      | none => pure "UNDECIDED no certificate"
+  | _ => pure "BAD-MODE"
+
 def handle : String → Option (P String)
   | "TREECHECK" => some cmdTreeCheck
   | "TREECHECKD" => some cmdTreeCheckD
   | "OWNERS" => some cmdOwners
+  | "OWNERSLVL" => some cmdOwnersLvl
+  | "OWNERSHYP" => some cmdOwnersHyp
   | _ => none
 
 end Clipper.Driver.C04
